@@ -650,8 +650,41 @@ def orm_id_memo(prog: Program) -> RuleResult:
     return r
 
 
+def orm_assoc_name(prog: Program) -> RuleResult:
+    """'A relationship for every collection of mapped classes' through an association table of its own: the table's name is made from the
+    owning table and the field, and has to stay a function of both.  A name that is cut (to a backend's identifier limit, say) makes two
+    collections of one class with a long common prefix share a name: the generated module defines the table twice and does not import."""
+    r = RuleResult("ORM-ASSOC-NAME", "the name of an association table is made from the whole table name and the whole field name", floor=1)
+    wt = prog.cls(WT)
+    f = wt.methods.get("create_one_to_many_relationship")
+    if f is None:
+        raise AnalysisError("ORM-ASSOC-NAME: WrappedTable.create_one_to_many_relationship vanished")
+    names = [x for x in walk_local(f.node) if isinstance(x, ast.Assign) and len(x.targets) == 1 and isinstance(x.targets[0], ast.Name) and "association" in x.targets[0].id and "name" in x.targets[0].id]
+    if not names:
+        raise AnalysisError("ORM-ASSOC-NAME: no association table name is built")
+    # every expression that flows into the name
+    todo = [x.value for x in names]
+    seen_names = set()
+    parts = []
+    while todo:
+        e = todo.pop()
+        parts.append(e)
+        for y in ast.walk(e):
+            if isinstance(y, ast.Name) and y.id not in seen_names:
+                seen_names.add(y.id)
+                todo += [z.value for z in walk_local(f.node) if isinstance(z, ast.Assign) and any(isinstance(t, ast.Name) and t.id == y.id for t in z.targets)]
+    cut = [y for e in parts for y in ast.walk(e) if isinstance(y, ast.Subscript) and isinstance(y.slice, ast.Slice)]
+    cut += [y for e in parts for y in ast.walk(e) if isinstance(y, ast.Call) and (call_name(y) in ("hash", "shorten", "truncate") or (isinstance(y.func, ast.Attribute) and y.func.attr in ("ljust", "rjust", "format_map")))]
+    txt = " ".join(src(e) for e in parts)
+    whole = "tablename" in txt and "field" in txt
+    r.check(whole and not cut, f"{f.short}#name-of-table-and-field", site(f, cut[0]) if cut else site(f, names[0]), src(cut[0] if cut else names[0].value)[:80], "table name and field name enter the name unabridged",
+            f"the name is {'cut (`' + src(cut[0])[:50] + '`)' if cut else 'not made from the table and the field'}: two collection fields of one class whose names agree in a long prefix get the same "
+            "association table - the module defines it twice and fails to import")
+    return r
+
+
 def run(prog: Program, tier: str) -> List[RuleResult]:
     # the generator reads every field through its resolved annotation: an unresolved forward reference is no class to map
     from .c17 import wf_resolved
 
-    return [guard(lambda: wf_table(prog)), guard(lambda: orm_dispatch(prog)), guard(lambda: orm_imports(prog)), guard(lambda: orm_names(prog)), guard(lambda: orm_determinism(prog)), guard(lambda: orm_memo(prog)), guard(lambda: wf_resolved(prog)), guard(lambda: orm_order(prog)), guard(lambda: orm_fields_once(prog)), guard(lambda: orm_id_memo(prog))]
+    return [guard(lambda: wf_table(prog)), guard(lambda: orm_dispatch(prog)), guard(lambda: orm_imports(prog)), guard(lambda: orm_names(prog)), guard(lambda: orm_determinism(prog)), guard(lambda: orm_memo(prog)), guard(lambda: wf_resolved(prog)), guard(lambda: orm_order(prog)), guard(lambda: orm_fields_once(prog)), guard(lambda: orm_id_memo(prog)), guard(lambda: orm_assoc_name(prog))]
